@@ -294,7 +294,8 @@ class Loader(importlib.abc.MetaPathFinder, importlib.abc.Loader):
         mon.set_events(tid, mon.events.PY_START)
 
     def reset_for_path(self):
-        pass
+        from . import fs
+        fs.FSYS.reset()
 
 
 _loader = None
